@@ -75,3 +75,45 @@ func (i *interpreter) provenIn(t *Term, lo, hi *big.Int) bool {
 
 func (i *interpreter) provenNonneg(t *Term) bool   { return i.provenIn(t, big.NewInt(0), nil) }
 func (i *interpreter) provenPositive(t *Term) bool { return i.provenIn(t, big.NewInt(1), nil) }
+
+// determined reports whether t has one and the same value on every continuation of the current
+// path (asked once under the deterministic resource limit); used by intrinsics whose symbolic
+// result would otherwise turn later slice offsets and lengths symbolic.
+func (i *interpreter) determined(t *Term) (*big.Int, bool) {
+	if t.isConst() {
+		return t.c, true
+	}
+	if i.path == nil || i.solver == nil {
+		return nil, false
+	}
+	key := fmt.Sprintf("det:%d:%d", t.id, len(i.path.pc))
+	if r, ok := i.hostData[key]; ok {
+		if r == nil {
+			return nil, false
+		}
+		return r.(*big.Int), true
+	}
+	p := i.path
+	if p.model == nil {
+		res, m := i.solver.Check(true)
+		if res != "sat" {
+			i.hostData[key] = nil
+			return nil, false
+		}
+		p.model, p.memo = m, nil
+	}
+	k := i.evalModel(t)
+	f := i.tf
+	var kc *Term
+	if t.sort.K == SInt {
+		kc = f.IntB(k)
+	} else {
+		kc = f.Const(t.sort, k)
+	}
+	if i.solver.CheckR(rangeRlimit, f.Not(f.Eq(t, kc))) == "unsat" {
+		i.hostData[key] = k
+		return k, true
+	}
+	i.hostData[key] = nil
+	return nil, false
+}
